@@ -247,6 +247,57 @@ def filterMut (pr : Nat → Bool) (s : St) (l : Hdr) (m : Mem) : Stat × St × H
   let r := filterMutLoop pr l.size s l l.head none m
   (.ok, r.1, r.2.1, r.2.2)
 
+/-- `cc_slist_sort`: a list of one element returns at once; otherwise `to_array`, `qsort` (`sortFn`), write-back into the
+existing nodes (`PList.writeBack`), release of the array.  No node is created, released or relinked. -/
+def sort (sortFn : List Nat → List Nat) (s : St) (l : Hdr) (m : Mem) : Stat × St × Hdr × Mem :=
+  if l.size = 1 then (.ok, s, l, m) else
+  let a := m.allocT l.triple
+  if !a.1 then (.errAlloc, s, l, a.2) else
+  let arr := PList.dataNext s.heap l.size l.head
+  (.ok, { s with heap := PList.writeBack (sortFn arr) l.size 0 l.head s.heap }, l, a.2.freeT l.triple)
+
+/-! ### derived lists: `cc_slist_sublist`, `cc_slist_copy_shallow/deep`, `cc_slist_filter`
+(a fresh header, then `cc_slist_add` per selected element; a refused `add` destroys the partial result) -/
+
+def buildLoop (sel : Nat → Option Nat) : Nat → St → Option Nat → Hdr → Mem → Stat × St × Option Hdr × Mem
+  | 0, s, _, d, m => (.ok, s, some d, m)
+  | _, s, none, d, m => (.ok, s, some d, m)
+  | k + 1, s, some id, d, m =>
+    match sel (nd s.heap id).data with
+    | none => buildLoop sel k s (nd s.heap id).next d m
+    | some y =>
+      let r := addLast s d y m
+      if r.1 != .ok then
+        let z := destroy r.2.1 r.2.2.1 r.2.2.2
+        (r.1, z.2.1, none, z.2.2)
+      else buildLoop sel k r.2.1 (nd r.2.1.heap id).next r.2.2.1 r.2.2.2
+
+/-- `cc_slist_sublist` -/
+def sublist (s : St) (l : Hdr) (b e : Nat) (m : Mem) : Stat × St × Option Hdr × Mem :=
+  if b > e || e ≥ l.size then (.errInvalidRange, s, none, m) else
+  let c := new l.triple m
+  match c.2.1 with
+  | none => (c.1, s, none, c.2.2)
+  | some sub =>
+    let g := getNodeAt s.heap l b
+    if g.1 != .ok then (g.1, s, none, (destroy s sub c.2.2).2.2) else
+    buildLoop some (e - b + 1) s g.2.1 sub c.2.2
+
+/-- `cc_slist_copy_shallow` (`cp = id`) and `cc_slist_copy_deep` -/
+def copy (cp : Nat → Nat) (s : St) (l : Hdr) (m : Mem) : Stat × St × Option Hdr × Mem :=
+  let c := new l.triple m
+  match c.2.1 with
+  | none => (c.1, s, none, c.2.2)
+  | some dst => buildLoop (fun v => some (cp v)) l.size s l.head dst c.2.2
+
+/-- `cc_slist_filter` -/
+def filter (p : Nat → Bool) (s : St) (l : Hdr) (m : Mem) : Stat × St × Option Hdr × Mem :=
+  if l.size = 0 then (.errOutOfRange, s, none, m) else
+  let c := new l.triple m
+  match c.2.1 with
+  | none => (c.1, s, none, c.2.2)
+  | some dst => buildLoop (fun v => if p v then some v else none) l.size s l.head dst c.2.2
+
 /-- data along `next` from `head` -/
 def fwd (h : Heap) (l : Hdr) : List Nat := PList.dataNext h l.size l.head
 
